@@ -201,10 +201,19 @@ def had_stream_fault(R, r):
 def oracle_c01(R):
     v = []
     for r in R.all_recs():
-        if r['type'] not in ('upload', 'copy') or not r['outcome'] \
-                or not r['outcome'].get('ok'):
+        if r['type'] not in ('upload', 'copy') or not r['outcome']:
             continue
         kind = kind_of(r)
+        # every CompleteMultipartUpload request that was sent (also one the
+        # service rejected) lists parts 1..n in ascending order
+        for c in calls_of(R, r):
+            if c['op'] == 'complete_multipart_upload' and 'parts' in c:
+                nums = [p.get('PartNumber') for p in c['parts']]
+                if nums != list(range(1, len(nums) + 1)):
+                    v.append((f'c01:{kind}:multipart:part-numbers',
+                              f'complete request lists parts as {nums}'))
+        if not r['outcome'].get('ok'):
+            continue
         mode = mode_of(R, r)
         sym = content_violation(R, r)
         if sym:
